@@ -216,7 +216,7 @@ pub fn check(pid: &str, seed: u64) -> Value {
             "C05" => { crate::preds2::c05(&mut rep); ("EAMBIENTE / TERMOSOLAR x two systems with ids from {-1,0,1} (also the same id twice) x use in {0, 2, (3,1)} x declared production in {none, 1, 5, (0,4)} x one use, two EPB uses, or an EPB and a non-EPB use per system; 2 steps", "every generated file has ambient / solar components") }
             "C06" => { crate::preds2::c06(&mut rep); crate::preds2::c06_special(&mut rep); ("system 1 with services {CAL},{CAL,ACS},{CAL,REF},{CAL,ACS,REF} x outputs from {30,10,-10,(30,0),(10,0),(0,20)} x AUX in {4,(4,2),(0,3)} x with/without a second single-service system with AUX x electricity otherwise present or absent", "multi-service systems are the non-trivial cases") }
             "C16" => { crate::preds2::c16(&mut rep, seed); ("the repository's test_data component files, the special buildings of the other predicates, 21 hand-written edge shapes (AUX without consumption, DHW demand with biomass and PV, empty / short / non-numeric / non-finite fields, different lengths) and 60 seeded token- or line-level corruptions (drop, duplicate, swap, replace) of each of the first 20 files; each parsed, evaluated with the full and the stripped factor set in both load-matching modes and passed to the DHW renewable fraction, under catch_unwind", "an input is non-trivial when it parses and at least one evaluation succeeds") }
-            "C10" => { crate::preds2::c10(&mut rep, seed); ("3 base files x {6 random line orders, comments/blank/header/BOM/whitespace, ids renumbered, id 0 omitted, one component split in two lines} + 20 repeated evaluations each", "every rewriting is non-trivial") }
+            "C10" => { crate::preds2::c10(&mut rep, seed); ("4 base files x {6 random line orders, comments/blank/header/BOM/whitespace and their combinations, ids renumbered, id 0 omitted, one component split in two lines} + 60 repeated evaluations each", "every rewriting is non-trivial") }
             _ => { crate::preds2::c07(&mut rep, seed); ("factor files over every non-empty subset of {ELECTRICIDAD,GASNATURAL,BIOMASA,EAMBIENTE,RED1} with pairwise distinct marker values x 8 sets of user-given export factors x user RED1/RED2 {none, red1, both}; then up to 12 buildings over the carriers of the set (PV surplus, cogeneration with one or two fuels, non-EPB uses of electricity / ambient heat / solar thermal, outputs and auxiliaries) x (k_exp, load matching) in {(0,off),(0.5,on)}, each with the full and the stripped set", "every accepted factor file is non-trivial") }
         };
         let fails: Vec<Value> = rep.failures.into_iter().filter(|f| { let c = f["clause"].as_str().unwrap_or(""); match pid { "C07" => c.starts_with("C07"), "C08" => c.starts_with("C08"), _ => true } }).collect();
@@ -283,12 +283,55 @@ pub fn check(pid: &str, seed: u64) -> Value {
                         }
                     }
                 }
+                "C11" => {
+                    // area and metadata must not change anything but the per-m2 results (text cases)
+                    evals += 1;
+                    if let Ok(e0) = run(&tcase(t, 0.5, 2.0, lm)) {
+                        nontrivial += 1;
+                        for c in [0.5f32, 8.0, 100.0] {
+                            evals += 1;
+                            if let Ok(e) = run(&tcase(t, 0.5, 2.0 * c, lm)) {
+                                if !eq(e.balance_m2.we.b.nren * c, e0.balance_m2.we.b.nren) || !eq(e.balance.we.b.nren, e0.balance.we.b.nren) || !eq(e.rer, e0.rer) || !eq(e.rer_nrb, e0.rer_nrb) || !eq(e.rer_onst, e0.rer_onst) {
+                                    failures.push(json!({"clause": "C11", "components": t, "load_matching": lm, "what": format!("multiplying the area by {} does not divide the per-m2 result by it (or changes something else)", c)}));
+                                }
+                            }
+                        }
+                    }
+                }
                 "C12" => {
                     if lm { continue; }
                     evals += 2;
                     if let (Ok(a), Ok(b)) = (run(&tcase(t, 0.0, 1.0, true)), run(&tcase(t, 0.0, 1.0, false))) { nontrivial += 1; if let Some(w) = c12(&a, &b) { failures.push(json!({"clause": "C12", "components": t, "what": w})); } }
                 }
                 _ => {}
+            }
+        }
+    }
+    if pid == "C11" {
+        // the DHW renewable fraction does not depend on the reference area nor (for values well above the 0.01 kWh cut-offs) on a common scale of the energies
+        let dhw: Vec<Box<dyn Fn(f32) -> String>> = vec![
+            Box::new(|c| format!("DEMANDA,ACS,{}\n1,CONSUMO,ACS,BIOMASA,{}\n1,SALIDA,ACS,{}\n2,CONSUMO,ACS,ELECTRICIDAD,{}", 100.0 * c, 120.0 * c, 90.0 * c, 0.5 * c)),
+            Box::new(|c| format!("DEMANDA,ACS,{}\n1,CONSUMO,ACS,ELECTRICIDAD,{}\n1,CONSUMO,ACS,EAMBIENTE,{}\n2,PRODUCCION,EL_INSITU,{}\n3,CONSUMO,CAL,GASNATURAL,{}", 100.0 * c, 30.0 * c, 70.0 * c, 10.0 * c, 40.0 * c)),
+            Box::new(|c| format!("DEMANDA,ACS,{}\n1,CONSUMO,ACS,GASNATURAL,{}\n2,CONSUMO,ACS,TERMOSOLAR,{}\n2,AUX,{}\n2,SALIDA,ACS,{}", 100.0 * c, 50.0 * c, 60.0 * c, 0.3 * c, 60.0 * c)),
+            Box::new(|c| format!("DEMANDA,ACS,{}\n1,CONSUMO,ACS,RED1,{}\n2,CONSUMO,ACS,ELECTRICIDAD,{}\n2,CONSUMO,ACS,EAMBIENTE,{}\n2,AUX,{}", 100.0 * c, 40.0 * c, 0.45 * c, 60.0 * c, 0.44 * c)),
+        ];
+        for mk in &dhw {
+            let t1 = mk(1.0);
+            let frac = |t: &str, area: f32| -> Option<f32> { run(&Case { text: t.to_string(), loc: "PENINSULA", k_exp: 0.0, area, lm: false }).ok().and_then(|ep| cteepbd::cte::fraccion_renovable_acs_nrb(&ep).ok()) };
+            evals += 1;
+            let f0 = frac(&t1, 1.0);
+            if f0.is_some() { nontrivial += 1; }
+            for area in [0.5f32, 20.0, 50.0, 100.0, 1024.0, 5000.0] {
+                evals += 1;
+                let f = frac(&t1, area);
+                let same = match (f0, f) { (Some(a), Some(b)) => eq(a, b), (None, None) => true, _ => false };
+                if !same { failures.push(json!({"clause": "C11.dhw_fraction_area", "components": t1, "what": format!("DHW renewable fraction {:?} with area 1, {:?} with area {}", f0, f, area)})); }
+            }
+            for c in [2.0f32, 8.0, 1024.0] {
+                evals += 1;
+                let f = frac(&mk(c), 1.0);
+                let same = match (f0, f) { (Some(a), Some(b)) => eq(a, b), (None, None) => true, _ => false };
+                if !same { failures.push(json!({"clause": "C11.dhw_fraction_scale", "components": t1, "what": format!("DHW renewable fraction {:?}, but {:?} when every energy is multiplied by {}", f0, f, c)})); }
             }
         }
     }
